@@ -106,6 +106,14 @@ func c10Apply(cch Cache, op string) {
 		ch <- &podresapi.PodResources{PodResources: &podresv1.PodResources{Name: fmt.Sprintf("pod%d", i), Namespace: "ns",
 			Containers: []*podresv1.ContainerResources{{Name: fmt.Sprintf("c%d", i), CpuIds: []int64{1, 2}}}}}
 		p.GetPodResources() // returns once the fetch has completed
+	case "reset-policy":
+		cch.ResetActivePolicy()
+		cch.SetActivePolicy("verif")
+	case "refresh":
+		// what Synchronize does: the runtime lists pod p0 and container c0 only; everything else is purged
+		cch.RefreshPods([]*nri.PodSandbox{c10Pod(0)}, nil)
+		cch.RefreshContainers([]*nri.Container{c10Ctr(0)})
+		cch.Save()
 	case "delpod":
 		cch.DeletePod(f[1])
 	case "delctr":
@@ -154,7 +162,7 @@ func c10Apply(cch Cache, op string) {
 }
 
 var c10Ops = []string{"pod:0", "pod:1", "podres:1", "ctr:0", "ctr:1", "creating:2", "pin:c0", "pin:c1", "state:c0", "tag:c0", "upd:c0", "classes:c1", "aff:c0",
-	"entry-string", "entry-map", "entry-cpuset", "entry-cacheable", "delctr:c0", "delpod:p1", "restart"}
+	"entry-string", "entry-map", "entry-cpuset", "entry-cacheable", "delctr:c0", "delpod:p1", "restart", "reset-policy", "refresh"}
 
 // c10Render renders everything the property lists, through public getters only.
 func c10Render(cch Cache) string {
